@@ -14,8 +14,8 @@ def run(tier):
         "{complete, partially missing, last column missing, multiallelic, (monomorphic, all missing)} plus fault rows "
         "(haploid/triploid call in a selected sample, corrupt line / BCF stream ending inside a record) at every position; every scenario also runs through the BCF path x 3 lists x no projection + every "
         "projection target x strict on/off. Conservation (mass + skipped = sites) is a TLC invariant of every state.",
-        ["MCCreate_hist_quick.cfg", "MCCreate_fmt.cfg", "MCCreate_fault2.cfg"],
-        ["MCCreate_hist_t1.cfg", "MCCreate_hist_t2.cfg", "MCCreate_fmt.cfg", "MCCreate_fault2.cfg"],
+        ["MCCreate_hist_quick.cfg", "MCCreate_fmt.cfg", "MCCreate_fault2.cfg", "MCCreate_samepos.cfg"],
+        ["MCCreate_hist_t1.cfg", "MCCreate_hist_t2.cfg", "MCCreate_fmt.cfg", "MCCreate_fault2.cfg", "MCCreate_samepos.cfg"],
         [SAB_SCRATCH, SAB_RESET], env={"CREATE_ALSO": "bcf"})
 
     # cohorts of hundreds of samples (class-level records, CreateLarge.tla): weight exactly one per counted record
